@@ -113,6 +113,12 @@ CHECKS = {
             "Domain edges are the documented bounds rounded to the input dtype; wrappers probed only on features whose box is "
             "parameter-independent; non-finite results under conditioner outputs beyond |10| are inconclusive.",
             "DESIGN.md 3/C17"),
+    "C18": ("Hypothesis-generated distributions/flows x event shapes x num_samples x batch_size classes x context; shape oracle, "
+            "exception-type oracle for bad arguments, batch-replication and row-identity checks, KS test of batched samples",
+            "Exploration: log_prob/sample/sample_and_log_prob shapes for every Distribution and Flow class incl. scalar events, "
+            "context with embedding nets, batch sizes dividing / not dividing / exceeding num_samples; ValueError on context row "
+            "mismatch, TypeError on non-positive or non-integer counts; batches are independent draws and block i stays block i.",
+            "bool counts not generated; DiagonalNormal has no sampler by design.", "DESIGN.md 3/C18"),
     "C20": ("exhaustive small-shape enumeration + Hypothesis generation against numpy reference models; bit-level "
             "argument-unchanged comparison",
             "Exploration: every utils helper on an exhaustive grid of small shapes/integer arguments and on generated "
